@@ -36,12 +36,45 @@ class Job:
 
 def _argstr(a):
     if a[0] == 'bytes':
+        if len(a) > 3 and a[3]:
+            return 'sym[%d|%s]' % (a[2], '.'.join(_maskstr(m) for m in a[3]))
         return 'sym[%d]' % a[2]
     if a[0] == 'int':
         return str(a[1])
     if a[0] == 'cbytes':
         return repr(bytes(a[1]))
+    if a[0] == 'bool':
+        return 'true' if a[1] else 'false'
     return a[0]
+
+
+def _maskstr(m):
+    n = bin(m).count('1')
+    if n == 1:
+        return '%02x' % (m.bit_length() - 1)
+    if n > 128:
+        return '~' + _maskstr(((1 << 256) - 1) & ~m)
+    return '{%d}' % n
+
+
+def byte_mask(*vals):
+    m = 0
+    for v in vals:
+        m |= 1 << (v if isinstance(v, int) else ord(v))
+    return m
+
+
+FULLMASK = (1 << 256) - 1
+SPLIT_CLASSES = [byte_mask('['), byte_mask('{'), byte_mask(' ', '\t', '\r', '\n')]
+SPLIT_CLASSES.append(FULLMASK & ~(SPLIT_CLASSES[0] | SPLIT_CLASSES[1] | SPLIT_CLASSES[2]))
+
+
+def prefix_splits(k):
+    """partition of the input space by the classes of the first k bytes"""
+    out = [[]]
+    for _ in range(k):
+        out = [p + [c] for p in out for c in SPLIT_CLASSES]
+    return out
 
 
 def _make_args(job, cellsout):
@@ -52,6 +85,11 @@ def _make_args(job, cellsout):
                 s, cells = ex.new_bytes(st, a[1], a[2])
                 cellsout.append((a[1], cells))
                 out.append(s)
+                if len(a) > 3 and a[3]:
+                    # case split: restrict the first bytes to the given value sets
+                    for i, m in enumerate(a[3]):
+                        v = ex.store.var_of(cells[i])
+                        st.pc = ex.mdd.and_byte(st.pc, v.order, m)
             elif a[0] == 'int':
                 out.append(a[1] & ((1 << 64) - 1))
             elif a[0] == 'bool':
@@ -141,8 +179,8 @@ def _worker(job):
                                            'count': ex.mdd.count(pc, nbytes) if not extras else None})
         res['classes'] = classes
         res['inputs_covered'] = total
-        res['input_space'] = 256 ** nbytes
-        res['partition_complete'] = (total == 256 ** nbytes) if not any(st.extras for st in terms) else None
+        res['input_space'] = ex.mdd.count(getattr(ses, 'initial_pc', TRUE), nbytes)
+        res['partition_complete'] = (total == res['input_space']) if not any(st.extras for st in terms) else None
         res['stats'] = dict(ex.stats)
         res['solver'] = dict(ex.solver.stats)
         res['reach'] = dict(ses.reach)
